@@ -18,7 +18,8 @@ Every change was written by an independent sub-agent that saw only the property 
 ending in b: a source-file focus different from round 1; round 3, names ending in c: public wrappers and small files;
 round 4, names ending in d: bookkeeping outside the main algorithms - queues, weak references, count paths, Lazy plumbing; round 5, names ending in e: C19/C20 without thread_local, wrappers' dependency declarations,
 what keeps listeners alive; round 6, names ending in f: situations rather than sites - one object in two roles, edges added late,
-incidental orders, several sends per transaction into defer/split, scoped transactions, wide fans, router corner cases);
+incidental orders, several sends per transaction into defer/split, scoped transactions, wide fans, router corner cases; round 7, names ending in g: more situations - listeners inside transactions, first events of accumulators,
+same-inner switches, keep-alive only through listeners, unlisten corner cases, lift diamonds, nested sends, long-delayed lazies);
 confirmed with `tools/confirm_mutant.sh`; run with `tools/try_mutant.py` (quick tier). `detected by` lists the checks that
 raised a VIOLATION with the change applied to /repo (after strengthening, where the notes say so). `tools/run_seeded.sh`
 re-applies every change and runs the check of its own property: every line must say DETECTED, except C03f (documented miss:
